@@ -77,6 +77,8 @@ def get_segments(s):
     >>> get_segments("1_5~rc.1") == get_segments("1.05~rc1")
     True
     """
+    # as in Vercmp.compare(): anything that is not ASCII is ignored, not a separator
+    s = s.encode("ascii", "ignore").decode("ascii")
     segments = re.findall(r"[0-9]+|[a-zA-Z]+|~|\^", s)
     return tuple(seg.lstrip("0") if seg.isdigit() else seg for seg in segments)
 
